@@ -33,7 +33,9 @@ class C02(Check):
     lean_targets = ["drv_c02"]
     driver = "drv_c02"
     theorems = ["Pox.C02.ctl_framing", "Pox.C02.ctl_prefix", "Pox.C02.sw_framing", "Pox.C02.sw_prefix", "Pox.C02.slice_framing"]
-    anchors = [("pox/openflow/of_01.py", 898, 962), ("pox/datapaths/switch.py", 1144, 1211), ("pox/lib/ioworker/__init__.py", 108, 126), ("pox/lib/ioworker/__init__.py", 204, 226)]
+    anchors = [("pox/openflow/of_01.py", "Connection.read"), ("pox/datapaths/switch.py", "OFConnection.read"),
+               ("pox/lib/ioworker/__init__.py", "IOWorker._do_recv"), ("pox/lib/ioworker/__init__.py", "IOWorker._push_receive_data"),
+               ("pox/lib/ioworker/__init__.py", "IOWorker.peek"), ("pox/lib/ioworker/__init__.py", "IOWorker.consume_receive_buf")]
     trusted_base = ["model Model/Framing.lean hand-written from of_01.Connection.read and OFConnection.read; tied by this correspondence run",
                     "decoder abstracted as U (consumes exactly a well-formed message: that is C01); the driver instantiates U with the length-driven slice decoder (theorem slice_framing)"]
     assumptions = ["message handlers do not disconnect the connection in the middle of a read (then Connection.read stops dispatching: that path is C09's)", "chunks are never empty (an empty recv is end-of-stream in the real code)", "recv never returns more than the 2048 bytes asked for"]
